@@ -266,7 +266,12 @@ fn documents(thorough: bool) -> (Vec<String>, Vec<String>) {
     let n = if thorough { 3 } else { 2 };
     for len in 1..=n {
         for i in 0..crate::gen::pow(menu.len() as u64, len) {
-            docs.push(crate::gen::decode_seq(i, menu.len() as u64, len).iter().map(|k| menu[*k]).collect::<Vec<_>>().join("\n"));
+            let ls: Vec<&str> = crate::gen::decode_seq(i, menu.len() as u64, len).iter().map(|k| menu[*k]).collect();
+            docs.push(ls.join("\n"));
+            if len >= 2 {
+                // the same lines with CR LF line ends (and a final one)
+                docs.push(format!("{}\r\n", ls.join("\r\n")));
+            }
         }
     }
     let non_ascii = vec![
@@ -296,6 +301,8 @@ fn documents(thorough: bool) -> (Vec<String>, Vec<String>) {
 enum Msg {
     Open(String),
     Change(String),
+    /// one didChange notification carrying several full-text changes: the last one counts
+    ChangeMulti(Vec<String>),
     Tokens,
 }
 
@@ -326,6 +333,15 @@ fn run_history(lsp: &mut Option<Lsp>, bin: &str, uri: &str, hist: &[Msg]) -> (u6
                 l.notify("textDocument/didChange", json!({"textDocument":{"uri":uri,"version":2},"contentChanges":[{"text":t}]}))?;
                 match l.wait(|x| x["method"] == "textDocument/publishDiagnostics" && x["params"]["uri"] == uri, 8000) {
                     Some(d) => Ok(check_diagnostics(t, &d)),
+                    None => Err("no diagnostics after didChange".into()),
+                }
+            }
+            Msg::ChangeMulti(ts) => {
+                latest = ts.last().cloned().unwrap_or_default();
+                let changes: Vec<J> = ts.iter().map(|t| json!({"text": t})).collect();
+                l.notify("textDocument/didChange", json!({"textDocument":{"uri":uri,"version":2},"contentChanges":changes}))?;
+                match l.wait(|x| x["method"] == "textDocument/publishDiagnostics" && x["params"]["uri"] == uri, 8000) {
+                    Some(d) => Ok(check_diagnostics(&latest, &d)),
                     None => Err("no diagnostics after didChange".into()),
                 }
             }
@@ -374,6 +390,22 @@ pub fn run(thorough: bool) -> Report {
     for a in core.iter().step_by(2) {
         for b in core.iter().skip(1).step_by(2) {
             hists.push(vec![Msg::Open(a.clone()), Msg::Tokens, Msg::Open(b.clone()), Msg::Tokens]);
+        }
+    }
+    // one change notification with two or three full texts
+    {
+        let c8: Vec<&String> = core.iter().step_by(4).take(8).collect();
+        for a in &c8 {
+            for b in &c8 {
+                for c in &c8 {
+                    hists.push(vec![Msg::Open((*a).clone()), Msg::ChangeMulti(vec![(*b).clone(), (*c).clone()]), Msg::Tokens]);
+                }
+            }
+        }
+        for a in c8.iter().take(4) {
+            for b in c8.iter().skip(2).take(4) {
+                hists.push(vec![Msg::Open((*a).clone()), Msg::ChangeMulti(vec![(*b).clone(), (*a).clone(), (*b).clone()]), Msg::Tokens, Msg::ChangeMulti(vec![(*a).clone()]), Msg::Tokens]);
+            }
         }
     }
     if thorough {
@@ -428,7 +460,7 @@ pub fn run(thorough: bool) -> Report {
         for (sig, detail, hi) in v {
             let e = by_sig.entry(sig).or_insert((0, hi, detail.clone()));
             e.0 += 1;
-            let size = |i: usize| hists[i].iter().map(|m| match m { Msg::Open(t) | Msg::Change(t) => t.len(), _ => 0 }).sum::<usize>();
+            let size = |i: usize| hists[i].iter().map(|m| match m { Msg::Open(t) | Msg::Change(t) => t.len(), Msg::ChangeMulti(ts) => ts.iter().map(|t| t.len()).sum(), _ => 0 }).sum::<usize>();
             if size(hi) < size(e.1) {
                 e.1 = hi;
                 e.2 = detail;
@@ -446,6 +478,7 @@ pub fn run(thorough: bool) -> Report {
             .map(|m| match m {
                 Msg::Open(t) => json!({"didOpen": t}),
                 Msg::Change(t) => json!({"didChange": t}),
+                Msg::ChangeMulti(ts) => json!({"didChangeMulti": ts}),
                 Msg::Tokens => json!("semanticTokens/full"),
             })
             .collect();
